@@ -53,6 +53,12 @@ func (x *Exec) makeIface(fr *Frame, st *State, v Value, t types.Type) Value {
 	case VFunc:
 		return VIface{tag, x.funcTerm(vv)}
 	}
+	if av, ok := v.(VAddr); ok && av.Kind != AOpaque {
+		// an address boxed into an interface (e.g. the target of errors.As): remember it
+		val := x.vc.Fresh("boxaddr", SInt)
+		x.boxedAddrs[val.S] = av
+		return VIface{tag, val}
+	}
 	return VIface{tag, x.vc.Fresh("box", SInt)}
 }
 
@@ -126,11 +132,11 @@ func (x *Exec) typeAssert(fr *Frame, st *State, in *ssa.TypeAssert) Value {
 // maps: ref -> (dom: K->Bool, val components: K->V)
 
 type mapShape struct {
-	key    string
-	kSort  Sort
-	vKind  Kind
-	vSort  Sort
-	vType  types.Type
+	key   string
+	kSort Sort
+	vKind Kind
+	vSort Sort
+	vType types.Type
 }
 
 func (e *Engine) mapShape(t types.Type) mapShape {
@@ -221,6 +227,7 @@ func (x *Exec) mapGetVal(st *State, ms mapShape, ref, k Term) Value {
 	if ms.vSort == SStr {
 		x.vc.strFacts(t)
 	}
+	x.typeInvFact(st, t, ms.vType)
 	return VTerm{t}
 }
 
